@@ -174,6 +174,7 @@ func (f *Frame) lockOp(op string, recv *Value, pos token.Pos) {
 	w := e.comp(f.st, wn, arrSort(sBool))
 	r := e.comp(f.st, rn, arrSort(sInt))
 	short := strings.TrimPrefix(wn, "LW.")
+	e.assume("true", app(">=", sel(r, idx), "0")) // a read-lock count is a natural number
 	switch op {
 	case "Lock":
 		if !f.dry {
